@@ -311,6 +311,10 @@ def task_map_invariant(v, sv):
         ('running-list-nodup', Q([('t', I)], lambda t: z3.And(k.run.count(t) >= 0, k.run.count(t) <= 1))),
         ('running-tasks-not-finished', Q([('t', I)], lambda t: z3.Implies(k.run.count(t) > 0, z3.And(
             t > 0, z3.Not(z3.And(k.fin.has(t), z3.Select(k.fin.vals, t))))))),
+        ('C04-running-tasks-are-scheduled-or-running', Q([('t', I)], lambda t: z3.Implies(k.run.count(t) > 0, z3.Or(
+            st(t) == TS('SCHEDULED'), st(t) == TS('RUNNING'))))),
+        ('C04-finished-in-the-map-means-finished', Q([('t', I)], lambda t: z3.Implies(
+            z3.And(k.fin.has(t), z3.Select(k.fin.vals, t)), st(t) == TS('FINISHED')))),
     ]
 
 
@@ -507,13 +511,17 @@ def _git_inv(c):
     return [('one-task-per-index', tasks.n == z3.ToInt(c.x['i'])),
             ('C06-ingest-tasks-last-the-observation', Q([('t', I)], lambda t: z3.Implies(tasks.count(t) > 0, z3.And(
                 t > 0, tasks.count(t) == 1, z3.Select(alloc, t), z3.Not(z3.Select(alloc_pre, t)), _ingest_task_facts(n, t, n.observation))))),
-            ('old-objects-stay-allocated', Q([('x', I)], lambda x: z3.Implies(z3.Select(alloc_pre, x), z3.Select(alloc, x))))]
+            ('old-objects-stay-allocated', Q([('x', I)], lambda x: z3.Implies(z3.Select(alloc_pre, x), z3.Select(alloc, x)))),
+            ('existing-tasks-keep-their-status', Q([('x', I)], lambda x: z3.Implies(z3.Select(alloc_pre, x), z3.Select(
+                n.heap('Task', 'task_status'), x) == z3.Select(c.x['pre'].heap('Task', 'task_status'), x))))]
 
 
 def _git_ens(c):
     res = c.result
     alloc_pre = c.o._s.ghost.get('alloc', c.eng.alloc0())
     return [('one-task-per-machine', res.n == z3.If(c.o.demand.t > 0, z3.ToInt(c.o.demand.t), 0)),
+            ('existing-tasks-keep-their-status', Q([('x', I)], lambda x: z3.Implies(z3.Select(alloc_pre, x), z3.Select(
+                c.n.heap('Task', 'task_status'), x) == z3.Select(c.o.heap('Task', 'task_status'), x)))),
             ('C06-ingest-tasks-last-the-observation', Q([('t', I)], lambda t: z3.Implies(res.count(t) > 0, z3.And(
                 t > 0, res.count(t) == 1, z3.Not(z3.Select(alloc_pre, t)), _ingest_task_facts(c.n, t, c.o.observation)))))]
 
